@@ -112,7 +112,7 @@ fn real_main(args: &[String]) -> i32 {
                 replay_dir: PathBuf::from(arg_val(args, "--replay-dir").unwrap_or_else(|| "/verif/replays".into())),
                 tmp: PathBuf::from(arg_val(args, "--tmp").unwrap_or_else(|| "/verif/target/tmp".into())),
                 runs_override: arg_val(args, "--runs").and_then(|v| v.parse().ok()),
-                time_limit_s: arg_val(args, "--time-limit").and_then(|v| v.parse().ok()).unwrap_or(if tier == "thorough" { 5400 } else { 900 }),
+                time_limit_s: arg_val(args, "--time-limit").and_then(|v| v.parse().ok()).unwrap_or(if tier == "thorough" { 10_800 } else { 420 }),
             };
             run_cmd(&a)
         }
